@@ -11,7 +11,7 @@ OrientedCircles each position-specific access to `circles` under `reversed` uses
 insert(0,..), ascending walk) and under `!reversed` back-side ones (last, len-1, len-2, push, descending walk);
 reverse_inscribed_circles reverses the order AND each circle; InscribedCircle::reversed / reverse_in_place swap the contacts AND
 reverse the ray; every edge-location strategy exported from airfoil::edges implements EdgeLocate and has a `make`."""
-NOT_DECIDED = "inscribedness, monotone stations, recovery of a known medial axis, equivariance, termination of the bisection/refinement/advance loops (numerical progress)"
+NOT_DECIDED = "inscribedness, monotone stations, recovery of a known medial axis, equivariance, termination of the bisection/refinement/advance loops (numerical progress); accuracy of the bisection (only the UNIT of its stop test is decided)"
 ASSUMPTIONS = []
 
 OC = 'airfoil::helpers::OrientedCircles'
